@@ -65,6 +65,13 @@ theorem bindCommitX_ips (s : State) (pod : Pod) (ns name : String) (uid : Nat) (
     rw [if_neg hc] at h
     exact bindCommit_ips _ _ _ _ _ _ _ h
 
+theorem bindFinish_ips (F : Facts) (s : State) (pod : Pod) (ns name : String) (uid : Nat) (node : String) (ips : List IP)
+    (ans : BindAnswer) (h : (bindFinish F s pod ns name uid node ips ans).2.res = .ok) :
+    (bindFinish F s pod ns name uid node ips ans).2.ips.map (·.ip) = ips := by
+  have e := bindFinish_ok_eq F s pod ns name uid node ips ans h
+  rw [e] at h ⊢
+  exact bindCommitX_ips s pod ns name uid node ips h
+
 /-- Bind when the addresses `ips` (one per requested range, or the one chosen owned address) are already owned: no
     allocation; "waiting for delete event" if a record of the key carries another incarnation's uid; otherwise the
     answer, if ok, lists exactly `ips` in request order -/
@@ -90,7 +97,7 @@ theorem bind_found (s : State) (ns name : String) (uid : Nat) (node : String) (c
       · cases hr : (bindLoop s (keyOf pod) node { policy := policyOf pod, node := node, uid := pod.uid } ips ips).2 with
         | ok =>
           simp only [hr] at hok ⊢
-          exact bindCommitX_ips _ _ _ _ _ _ _ hok
+          exact bindFinish_ips _ _ _ _ _ _ _ _ _ hok
         | err c => simp only [hr] at hok; cases hok
         | inadmissible => simp only [hr] at hok; cases hok
       · intro ip hm r hr
